@@ -1009,7 +1009,7 @@ func (fg *FnGen) assumeValid(t *Term, ty types.Type, guard *Term) {
 		}
 	case *types.Slice:
 		fg.assumeIf(guard, And(Ge(SLen(t), IntLit(0)), Ge(SCap(t), SLen(t)), Ge(SOff(t), IntLit(0)), Ge(SBase(t), IntLit(0)), Le(SCap(t), BigIntLit("9223372036854775807")),
-			Implies(Eq(SBase(t), IntLit(0)), Eq(SCap(t), IntLit(0)))))
+			Implies(Eq(SBase(t), IntLit(0)), And(Eq(SCap(t), IntLit(0)), Eq(SOff(t), IntLit(0))))))
 		if isByteSlice(ty) {
 			// backing store is at least off+cap long
 			fg.note("byte-slice backing store length >= off+cap is asserted lazily at accesses")
